@@ -407,7 +407,7 @@ mutual
       let selTerms := joinDocs (K ",") (renderL { k with withAlias := true, subquery := true } selects)
       let selectDoc : Doc := kws "SELECT " ::
         selectPrefix fl (!distinctOn.isEmpty)
-          (kws "DISTINCT ON(" :: joinDocs (K ",") (renderL { k with withAlias := true } distinctOn) ++ K ") ") ++ selTerms
+          (kws "DISTINCT ON(" :: joinDocs (K ",") (renderL { k with withAlias := false } distinctOn) ++ K ") ") ++ selTerms
       let fromDoc : Doc := opt (!from_.isEmpty)
         (fromClause fl (joinDocs (K ",") (renderSrcL { k with withNamespace := false, subquery := true, withAlias := true } from_)))
       let joinsDoc : Doc := opt (!joins.isEmpty) (kws " " :: joinDocs (K " ") (renderJoins k joins))
@@ -448,7 +448,7 @@ mutual
             opt (!orderbys.isEmpty) (kws " ORDER BY " ::
                 joinDocs (K ",") (renderOrderBy { k with quote := .given k.q } selects k.aq orderbys)) ++
             opt (fl.cls = .clickhouse && fl.limitBy.isSome) (limitByDoc fl
-                (joinDocs (K ",") (renderL { k with withAlias := true } limitByTerms))) ++
+                (joinDocs (K ",") (renderL { k with withAlias := false } limitByTerms))) ++
             paginate fl.cls fl.limit fl.offset ++ forUpdateDoc fl k.q
           parensIf c.subquery body ++
             opt c.withAlias (aliasDoc { k with aliasQuote := some fl.cls.queryAliasQuoteChar } k.q fl.alias)
@@ -460,7 +460,7 @@ mutual
         conflictGuard fl.onConflictDoNothing onConflictDoUpdates.isEmpty onConflictFields.isEmpty
           (kws " ON CONFLICT" ::
             opt (!onConflictFields.isEmpty)
-              (kws " (" :: joinDocs (K ", ") (renderL { kd with withAlias := true, subquery := false } onConflictFields) ++ K ")") ++
+              (kws " (" :: joinDocs (K ", ") (renderL { kd with withAlias := false, subquery := false } onConflictFields) ++ K ")") ++
             opt onConflictWheres.isSome (K " WHERE ") ++
             renderOpt { kd with withAlias := false, subquery := true } onConflictWheres) ++
         (if fl.onConflictDoNothing then K " DO NOTHING"
